@@ -327,7 +327,11 @@ def gen_load(g, model, chain, dt_hint=None, overload=None, families=None):
         elif f == 'step':
             terms.append({'t': 'step', 'A': amp,
                           't0': r.uniform(0.0, 8.0) / k})
-    return {'terms': terms, 'unit': g.unit('Torque')}
+    out = {'terms': terms, 'unit': g.unit('Torque')}
+    if g.chance(0.12):
+        out['unit2'] = r.choice(si.units_of('Torque'))
+        out['t_unit2'] = r.uniform(0.0, 6.0) / k
+    return out
 
 
 def gen_init(g, model, chain, pwm=None):
@@ -363,6 +367,11 @@ def gen_run(g, k, n=None, kdt=None, unit=None, decimal=False, **extra):
     r = g.rng
     if kdt is None:
         kdt = g.logu(0.01, 1.5) if g.chance(0.9) else g.logu(1.5, 2.5)
+    if g.cfg.get('differential'):
+        # differentials compare two executions up to rounding: stay well
+        # inside the stability region of the explicit scheme (k*dt < 2,
+        # loads add stiffness), where rounding is not amplified
+        kdt = min(kdt, 1.0)
     if n is None:
         n = r.randint(*g.cfg.get('steps', (3, 60)))
     if unit is None and not g.cfg.get('mixed_time_units'):
@@ -412,6 +421,20 @@ def base_scenario(g, profile, **chain_kw):
     return scn, model, chain
 
 
+LIVE_ATTRS = {'angular_position': 'AngularPosition',
+              'angular_speed': 'AngularSpeed',
+              'angular_acceleration': 'AngularAcceleration',
+              'torque': 'Torque', 'driving_torque': 'Torque',
+              'load_torque': 'Torque', 'time': 'Time'}
+
+
+def convert_live_op(g, chain):
+    r = g.rng
+    attr = r.choice(list(LIVE_ATTRS))
+    return {'op': 'convert_live', 'elem': r.choice(chain), 'attr': attr,
+            'unit': r.choice(si.units_of(LIVE_ATTRS[attr]))}
+
+
 def gen_dyn(g):
     """C01-C03 (and the default for others): run / continue / reset."""
     r = g.rng
@@ -427,6 +450,8 @@ def gen_dyn(g):
             # the user changes the duty cycle by hand between two runs
             sched.append({'op': 'set_pwm',
                           'value': r.choice([0, 1, -1, round(r.uniform(-1, 1), 3)])})
+        if g.chance(0.15) and sched[-1]['op'] == 'run':
+            sched.append(convert_live_op(g, chain))
         gears = [d for d in scn['decls'] if d['op'] == 'gear' and
                  d['s'] in chain and d['m'] in chain]
         if gears and g.chance(0.12):
@@ -555,9 +580,18 @@ def condition_load(scn):
     T = sum(run_T_si(o) for o in scn['schedule'] if o['op'] == 'run')
     th_max = abs(si.q_si('AngularPosition', scn['init']['position'])) + \
         (abs(si.q_si('AngularSpeed', scn['init']['speed'])) + 2 * w_out) * T
+    dts = [si.q_si('TimeInterval', o['dt']) for o in scn['schedule']
+           if o['op'] == 'run']
+    dt_max = max(dts) if dts else 0.0
     for t in load['terms']:
         if t['t'] == 'sinpos' and t['w'] * th_max > 1e3:
             t['w'] = 1e3 / th_max
+        if t['t'] == 'sinpos' and dt_max > 0:
+            # position stiffness A*w small against J/dt^2 (no amplification
+            # of rounding by the explicit scheme)
+            amax = 0.1 * J / (dt_max * dt_max * t['w'])
+            if abs(t['A']) > amax:
+                t['A'] = math.copysign(amax, t['A'])
 
 
 def gen(seed, profile, cfg=None):
@@ -593,6 +627,8 @@ def gen_lock(g):
         if g.chance(0.2):
             sched.append({'op': 'set_pwm',
                           'value': r.choice([0, 0, 1, -1, round(r.uniform(-1, 1), 3)])})
+        if g.chance(0.15) and sched[-1]['op'] == 'run':
+            sched.append(convert_live_op(g, chain))
         if c < 0.7:
             sched.append(gen_run(g, k, kdt=g.logu(0.02, 1.0)))
         else:
